@@ -382,10 +382,18 @@ def run(ctx, rep):
     rep.require(not bad5, "sibling", "open:tables (C05 table-location rule in both parsers)", "src/elf_stream.rs",
                 "section/program header tables are located by the same rule in both parsers",
                 "the two parsers do not locate the header tables by the same rule: %s" % "; ".join("%s: %s" % (v.key, v.msg[:200]) for v in bad5[:3]))
+    # symbol versions: both parsers are held to one wiring specification (which section feeds which part of the table, chosen how);
+    # that is C13's wiring rule, run here for the pair
+    from . import c13
+    sub13 = Report("C13")
+    c13.run(ctx, sub13)
+    bad13 = [v for v in sub13.violations if v.rule == "wiring"]
+    rep.require(not bad13, "sibling", "symbol_version_table (C13 wiring rule in both parsers)", "src/elf_stream.rs",
+                "the symbol version table is assembled from the same sections, chosen the same way, in both parsers",
+                "the two parsers do not assemble the symbol version table by the same rule: %s" % "; ".join("%s: %s" % (v.key, v.msg[:200]) for v in bad13[:3]))
     rep.floor("sibling", "accessor pairs compared", n, 11)
     rep.info["permitted_differences"] = diffs
-    rep.info["covered_elsewhere"] = ["symbol_version_table: both parsers are checked against the same wiring specification by C13",
-                                     "type guards of the typed views in both parsers: C20", "header-table location in both parsers: C05"]
+    rep.info["covered_elsewhere"] = ["type guards of the typed views in both parsers: C20"]
     rep.trusted_base += ["std's Read::read_exact (handles short reads and ErrorKind::Interrupted)", "C03/C05/C13/C20 for the per-parser clauses cited above"]
 
 
